@@ -193,7 +193,10 @@ func (response *Response) Validate(ctx context.Context, opts ...ValidationOption
 		return errors.New("a short description of the response is required")
 	}
 	if vo := getValidationOptions(ctx); !vo.examplesValidationDisabled {
-		vo.examplesValidationAsReq, vo.examplesValidationAsRes = false, true
+		// examples below a response are read as responses; the direction belongs to this subtree only
+		below := *vo
+		below.examplesValidationAsReq, below.examplesValidationAsRes = false, true
+		ctx = context.WithValue(ctx, validationOptionsKey{}, &below)
 	}
 
 	if content := response.Content; content != nil {
